@@ -103,6 +103,7 @@ def judge(ctx, cases, traces):
         case = by_id[t['id']]
         what = {'law': 'returned tree is not Expand(args) of the single-channel results',
                 'count': 'units created differ from one per combination',
+                'op_direct': 'a number/unit combination is not the operator unit on (x, y) in operand order',
                 'direct': 'a directly delegating constructor did not create exactly cls.rate(inputs) per combination',
                 'out_flat': 'output units did not receive the flattened channel array',
                 'silence': 'literal zeros were not replaced by one audio-rate silence',
@@ -147,8 +148,8 @@ def run(ctx):
     rnd = random.Random(ctx.seed)
     cover = ('AddArg', 'Emit')
     cfgs = dict(q='MCE_t.cfg' if thorough else 'MCE_q.cfg', recv='MCE_recv_t.cfg' if thorough else 'MCE_recv.cfg',
-                out='MCE_out_t.cfg' if thorough else 'MCE_out.cfg')
-    with ThreadPoolExecutor(max_workers=3) as ex:
+                out='MCE_out_t.cfg' if thorough else 'MCE_out.cfg', bin='MCE_bin.cfg')
+    with ThreadPoolExecutor(max_workers=4) as ex:
         rs = dict(zip(cfgs, ex.map(lambda c: model_check_in(ctx, 'MCE', c, cover, 'L2=>L1 + generate ' + c), cfgs.values())))
     shapes = {k: sorted(emitted(r), key=canon) for k, r in rs.items()}
     for k, v in shapes.items():
@@ -196,6 +197,19 @@ def run(ctx):
     for b in named:
         for sh in recv2:
             add(b, sh, 'cl')
+    # binary operators with plain-number channels next to units, both orders: (list, x), (x, list), (list, list);
+    # a plain number cannot be the receiver of a named operator, a plain list cannot follow a plain number
+    for sh in shapes['bin']:
+        if len(sh['args']) != 2 or not any(is_list(a) for a in sh['args']):
+            continue
+        first = sh['args'][0]
+        first_kind = None if is_list(first) else sh['kinds'][first['a'] - 1]
+        for b in dunder + named:
+            if b.get('named') and first_kind in ('n', 'z', 'b'):
+                continue
+            add(b, sh, 'cl')
+            if first_kind in ('ua', 'uk'):
+                add(b, sh, 'list')
     for u in un_d:
         for sh in recv1 + mixed1:
             add(u, sh, 'cl')
@@ -215,6 +229,15 @@ def run(ctx):
             extra = ['%d.5' % (i + 2) for i in range(max(0, nreq - k))]
             add(dict(kind='expr', level='one', expr='a.%s(%s)' % (name, ', '.join(list('bcdefg'[:k]) + extra)), src=name), sh,
                 'cl' if len(cases) % 2 else 'list')
+    # the same methods on channel lists with plain-number channels next to units (one extra argument, the rest constants)
+    for name, nreq, nmax in meths:
+        if nmax < 1:
+            continue
+        extra = ['%d.5' % (i + 2) for i in range(max(0, nreq - 1))]
+        for sh in shapes['bin']:
+            if len(sh['args']) == 2 and is_list(sh['args'][0]):
+                add(dict(kind='expr', level='one', expr='a.%s(%s)' % (name, ', '.join(['b'] + extra)), src=name), sh,
+                    'cl' if len(cases) % 2 else 'list')
     # output units
     for t in OUTS:
         for sh in shapes['out']:
@@ -241,8 +264,10 @@ def run(ctx):
                        'opaque tuple' % (sorted(cfgs.values()), len(chosen), len(ctors), ctx.cov['operators_run'], len(meths)))
     ctx.cov['exhaustive'] = True
     ctx.assumptions += ['a list is a Python list or a ChannelList; empty lists are outside the quantifier',
-                        'receivers of operators/methods are ChannelLists at every level; named (non-dunder) operators and '
-                        'methods are run on unit elements only (plain numbers have no such methods to compare with)',
+                        'receivers of operators/methods are ChannelLists at every level; for a plain-number channel the '
+                        'element call of a named operator is the method\'s own selector applied to (number, x) (bi.round, '
+                        'operator.and_, ...) and of a convenience method the library\'s number-side method (UGenScalar); '
+                        'operand order and opcode of number/unit combinations are decided by op_direct, not by these',
                         'opaque tuples are given to constructors and method arguments, not as arithmetic operands '
                         '(utils.list_binop deliberately zips tuples)',
                         'values are compared through a canonical text (class.rate#special(inputs...)) produced by the driver']
